@@ -48,6 +48,7 @@ type c06World struct {
 	links    []*node.SimLink
 	liveObj  map[*node.SimLink]bool // established (event called) and no loss event called since
 	everLive map[*node.SimLink]bool
+	hadRival map[*node.SimLink]bool // was live together with another object of its UUID at some point
 	estSeq   map[*node.SimLink]int
 	seq      int
 	gone     []*node.SimLink       // links the model counts as lost/replaced/refused
@@ -113,6 +114,7 @@ func (w *c06World) Setup(s *dsim.Sim) {
 	w.remotes = []string{"D1", "D2", "D3"}[:1+t.Draw(3, "remotes")]
 	w.liveObj = map[*node.SimLink]bool{}
 	w.everLive = map[*node.SimLink]bool{}
+	w.hadRival = map[*node.SimLink]bool{}
 	w.estSeq = map[*node.SimLink]int{}
 	w.inflight = map[uint64]int{}
 	w.busyObj = map[*node.SimLink]int{}
@@ -127,7 +129,7 @@ func (w *c06World) Setup(s *dsim.Sim) {
 		}
 	}
 	arm := []int{0, 50, 100}[t.Draw(3, "arm-pct")]
-	s.ArmFraction(arm, []string{"bl:bifrost/transport/controller/transport-handler.go", "bl:bifrost/transport/controller/controller.go"})
+	s.ArmFraction(arm, []string{"bl:bifrost/transport/controller/transport-handler.go", "bl:bifrost/transport/controller/controller.go", "go:transport/controller/"})
 	if t.Bool(1, 2, "holder-park") {
 		s.SetHolderPark(func(site string) bool { return strings.Contains(site, "bifrost/transport/controller/controller.go") })
 	}
@@ -155,7 +157,7 @@ func (w *c06World) newLink(uuid uint64, remote string) *node.SimLink {
 // establish callbacks overlap). A loss report for another, no longer live object is no
 // cause: "losing an old link never removes a newer link that replaced it".
 func (w *c06World) onSysClose(l *node.SimLink) {
-	if !w.liveObj[l] || l.Rem == w.tc.P.ID {
+	if !w.liveObj[l] || l.Rem == w.tc.P.ID || w.hadRival[l] {
 		return
 	}
 	for o := range w.liveObj {
@@ -187,6 +189,9 @@ func (w *c06World) establish(l *node.SimLink) {
 		for o := range w.liveObj {
 			if o.UUID == l.UUID && w.liveObj[o] {
 				s.Count("fault:replace-same-uuid")
+				// one of the two has to go; the system may carry out that close later
+				// (it closes links on separate goroutines), when the other is gone already
+				w.hadRival[o], w.hadRival[l] = true, true
 			}
 		}
 		w.liveObj[l] = true
